@@ -3,6 +3,7 @@ package agent
 import (
 	"time"
 
+	"github.com/postalsys/muti-metroo/internal/config"
 	"github.com/postalsys/muti-metroo/internal/crypto"
 	"github.com/postalsys/muti-metroo/internal/flood"
 	"github.com/postalsys/muti-metroo/internal/identity"
@@ -111,4 +112,29 @@ func harnessC28Frames() {
 	} else {
 		verif_assert(c28Sleeps == 0, "C28/wake-command-slept")
 	}
+}
+
+// C28 (configuration wiring): an agent built by the real constructor from a
+// configuration that names a signing public key -- with or without the private
+// key, which only the operator's agent holds -- refuses an unsigned command
+func harnessC28Wiring() {
+	cfg := config.Default()
+	cfg.Agent.DataDir = "/vfs/data"
+	verif_fs_mkdir("/vfs/data")
+	cfg.Management.SigningPublicKey = "0101010101010101010101010101010101010101010101010101010101010101"
+	if verif_nondet_bool() {
+		cfg.Management.SigningPrivateKey = "02020202020202020202020202020202020202020202020202020202020202020303030303030303030303030303030303030303030303030303030303030303"
+	}
+	a, err := New(cfg)
+	verif_reach("C28/wiring")
+	if err != nil || a == nil {
+		return // the only failing path of the model: the random agent ID came out all-zero
+	}
+	verif_reach("C28/wiring-constructed")
+	a.sleepMgr = &sleep.Manager{}
+	c28Sleeps, c28Wakes = 0, 0
+	verif_set_now(1 << 40)
+	cmd := &protocol.SleepCommand{OriginAgent: c16Peer(2), CommandID: verif_nondet_u64(), Timestamp: uint64((1 << 40) / c28Sec)}
+	a.handleSleepCommand(c16Peer(0), &protocol.Frame{Type: protocol.FrameSleepCommand, Payload: cmd.Encode()})
+	verif_assert(c28Sleeps == 0, "C28/unsigned-command-changed-sleep-state-although-a-signing-key-is-configured")
 }
